@@ -26,6 +26,10 @@ Lib == [ R  |-> << <<"in">>, <<"out">> >>,
          EP |-> << <<"in">>, <<"err">>, <<"panic">> >>,               \* records an error, then panics
          PH |-> << <<"in">>, <<"catchnext">>, <<"out">> >>,
          NP |-> << <<"in">>, <<"next">>, <<"panic">>, <<"out">> >>,
+         \* the router's built-in fallback handlers (not instrumented): 404, 405 and the automatic answer to OPTIONS
+         D404 |-> << <<"httpError", 404, 19>> >>,
+         D405 |-> << <<"httpError", 405, 19>> >>,
+         DOPT |-> << <<"status", 200>> >>,
          \* pkg/handlers middleware called by a handler (the harness calls the real functions)
          FH |-> << <<"in">>, <<"lib", "favicon-hit">>, <<"out">> >>,
          FM |-> << <<"in">>, <<"lib", "favicon-miss">>, <<"out">> >>,
